@@ -145,6 +145,12 @@ def moveOne (m : Mo) (j : Json) : P Json := do
   | "points" => do          -- transform.translate_rotate (no assertion)
     let l ← listOf ptOf v
     pure (okJ (ptsJ (l.map m.mv)))
+  | "areaborder" => do      -- AreaBorder.translate_rotate: plain transform.translate_rotate on the border vertices
+    let l ← listOf ptOf v
+    pure (okJ (ptsJ (l.map m.mv)))
+  | "area" => do            -- Area.translate_rotate: every border (none / empty list: nothing to do)
+    let ls ← listOf (listOf ptOf) v
+    pure (okJ (listJ ptsJ (ls.map (List.map m.mv))))
   | "shape" => do
     let sh ← shapeOf v
     pure (resJ shapeJ (Shape.move m sh))
